@@ -505,3 +505,61 @@ def check_listing_displacements(db, rep, rule, workdir):
                   "the listing spells a memory operand with displacement %d as `%s`: %s (the machine code encodes the signed value)" %
                   (disp, text, ("the assembler rejects it: " + rejected.get(2 * k, "?")) if got is None else "it assembles to a different operand than `%s`" % ref), line=c.line)
     return n
+
+
+def check_imm8(db, rep, rule):
+    """A table row whose immediate is ONE sign-extended byte (ORC_X86_*_imm8_*) may be selected for a run-time immediate
+    only where that immediate is known to lie in [-128, 127]; the listing prints the full value, the encoder the low byte."""
+    from flow import Facts, upper_bound, lower_bound, split_facts
+    from facts import access_path
+    tu = db.tu("orcx86insn")
+    idx_enum = [e for e in tu.enumdecls if any(i[0] == "ORC_X86_punpcklbw" for i in e["items"])]
+    if not idx_enum:
+        raise AnalysisBroken("OrcX86OpcodeIdx not found")
+    imm8 = {v for k, v in idx_enum[0]["items"] if "_imm8_" in k and not any(s in k for s in ("mmx", "sse", "avx"))}
+    protos = {}
+    for g in tu.main_functions():
+        pn = [p["name"] for p in g.params]
+        if "imm" in pn and "index" in pn:
+            protos[g.name] = (pn.index("index"), pn.index("imm"))
+    n = 0
+    for f in db.all_functions():
+        if not f.relfile.startswith("orc/"):
+            continue
+        fc = None
+        for c in f.calls():
+            if c.name not in protos:
+                continue
+            ii, mi = protos[c.name]
+            a = c.args()
+            if len(a) <= max(ii, mi):
+                continue
+            row, imm = strip_casts(a[ii]), strip_casts(a[mi])
+            if imm is None or imm.v is not None:
+                continue                      # constant immediates are decided by their value
+            var = access_path(imm)
+            if var is None:
+                continue
+            conds = None
+            if row.k == "ConditionalOperator":
+                t, e = strip_casts(row.c[1]), strip_casts(row.c[2])
+                if t.v in imm8:
+                    conds = split_facts(row.c[0], True)
+                elif e.v in imm8:
+                    conds = split_facts(row.c[0], False)
+                else:
+                    continue
+            elif row.v in imm8:
+                fc = fc or Facts(f)
+                conds = [x for x in fc.conds(c) if x[0] != "switch"]
+            else:
+                continue
+            n += 1
+            ub, lb = upper_bound(conds, var), lower_bound(conds, var)
+            rep.check(ub is not None and ub <= 127 and lb is not None and lb >= -128, rule, "%s::%s" % (f.relfile, f.name), "imm8(%s)@%s" % (var, c.name.replace("orc_x86_emit_cpuinsn_", "")),
+                      "the imm8 form is chosen only for %s in [%s, %s]" % (var, lb, ub),
+                      "%s selects a one-byte-immediate row for `%s`, which is only known to lie in [%s, %s] there: the encoder keeps the low byte "
+                      "(e.g. -65536 becomes 0) while the listing prints the full value" % (f.name, var, lb, ub), line=c.line)
+    if n < 3:
+        raise AnalysisBroken("only %d selections of an imm8 row with a run-time immediate found" % n)
+    return n
